@@ -1,3 +1,18 @@
+/-
+Order and error lemmas for `rnd` of `Model/Float53.lean` (used by Proofs/EmitFloat.lean, Props/C02.lean).
+Nothing in the model is changed; C03's `Proofs/Float53.lean` is only imported.
+
+* `two_zpow_ilog2_le`, `lt_two_zpow_ilog2_succ`   `ilog2 a = ⌊log2 a⌋`
+* `rnd_pos_spec`          `rnd x = n' * 2^e` with `2^52 ≤ x * 2^-e < 2^53`, `|n' - x * 2^-e| ≤ 1/2`, and `n'`
+                          between the integers enclosing `x * 2^-e`
+* `toRat_rnd_le_mul`, `mul_le_toRat_rnd`   relative error: `x (1 - 2^-53) ≤ rnd x ≤ x (1 + 2^-53)` for `x ≥ 0`
+                          (every magnitude: the model has no subnormals)
+* `toRat_rnd_le_repr`, `repr_le_toRat_rnd`, `toRat_rnd_repr`   rounding never crosses a double `K * 2^E`
+                          (`K < 2^53`), and fixes it
+* `rnd_mono`              `x ≤ y → rnd x ≤ rnd y`
+
+Imports single Mathlib tactic modules (the model itself and every driver stay Mathlib-free).
+-/
 import Proofs.Float53
 import Mathlib.Tactic.Linarith
 import Mathlib.Tactic.Positivity
@@ -42,6 +57,36 @@ theorem two_zpow_ilog2_le (a : Rat) (ha : 0 < a) : (2 : Rat) ^ (ilog2 a) ≤ a :
       Nat.mul_le_mul h1 (Nat.le_of_lt h2)
     exact_mod_cast this
 
+theorem lt_two_zpow_ilog2_succ (a : Rat) (ha : 0 < a) : a < (2 : Rat) ^ (ilog2 a + 1) := by
+  have hnum : 0 < a.num := Rat.num_pos.2 ha
+  have hp0 : a.num.natAbs ≠ 0 := by omega
+  have h1 : a.num.natAbs < 2 ^ (a.num.natAbs.log2 + 1) := Nat.lt_log2_self
+  have h2 : 2 ^ a.den.log2 ≤ a.den := Nat.log2_self_le (Nat.ne_of_gt a.den_pos)
+  have hden : (0 : Rat) < (a.den : Rat) := by exact_mod_cast a.den_pos
+  have hnumcast : (a.num : Rat) = ((a.num.natAbs : Nat) : Rat) := by
+    have : (a.num : Int) = ((a.num.natAbs : Nat) : Int) := by omega
+    rw [this]; simp
+  have ha' : a = ((a.num.natAbs : Nat) : Rat) / (a.den : Rat) := by
+    rw [← hnumcast]; exact (Rat.num_div_den a).symm
+  -- a < 2^(l0 + 1)
+  have hup : a < (2 : Rat) ^ (((a.num.natAbs.log2 : Nat) : Int) - ((a.den.log2 : Nat) : Int) + 1) := by
+    have hl : ((a.num.natAbs.log2 : Nat) : Int) - ((a.den.log2 : Nat) : Int) + 1 =
+        ((a.num.natAbs.log2 + 1 : Nat) : Int) - ((a.den.log2 : Nat) : Int) := by push_cast; ring
+    rw [hl, zpow_sub₀ (by norm_num), zpow_natCast, zpow_natCast]
+    refine lt_of_eq_of_lt ha' ?_
+    rw [div_lt_div_iff₀ hden (by positivity : (0 : Rat) < (2 : Rat) ^ a.den.log2)]
+    have : a.num.natAbs * 2 ^ a.den.log2 < 2 ^ (a.num.natAbs.log2 + 1) * a.den :=
+      Nat.mul_lt_mul_of_lt_of_le h1 h2 a.den_pos
+    exact_mod_cast this
+  unfold ilog2
+  extract_lets l0
+  split
+  · exact hup
+  · rename_i hnot
+    have : l0 - 1 + 1 = l0 := by ring
+    rw [this]
+    exact not_le.1 hnot
+
 /-! ## what `rndPos` computes -/
 
 /-- for a positive `a`: `rndPos a` denotes `n' * 2^e` where, with `s = a * 2^-e ≥ 2^52`, `n'` is an integer
@@ -52,7 +97,8 @@ theorem rndPos_spec (a : Rat) (ha : 0 < a) :
       (2 : Rat) ^ (52 : Nat) ≤ a * (2 : Rat) ^ (-e) ∧
       (n' : Rat) ≤ a * (2 : Rat) ^ (-e) + 1 / 2 ∧ a * (2 : Rat) ^ (-e) - 1 / 2 ≤ (n' : Rat) ∧
       (∀ k : Int, a * (2 : Rat) ^ (-e) ≤ (k : Rat) → (n' : Int) ≤ k) ∧
-      (∀ k : Int, (k : Rat) ≤ a * (2 : Rat) ^ (-e) → k ≤ (n' : Int)) := by
+      (∀ k : Int, (k : Rat) ≤ a * (2 : Rat) ^ (-e) → k ≤ (n' : Int)) ∧
+      a * (2 : Rat) ^ (-e) < (2 : Rat) ^ (53 : Nat) := by
   unfold rndPos
   extract_lets e s n frac up n'
   have hs : (2 : Rat) ^ (52 : Nat) ≤ s := by
@@ -63,6 +109,15 @@ theorem rndPos_spec (a : Rat) (ha : 0 < a) :
       congr 1; simp only [e]; push_cast; ring
     calc (2 : Rat) ^ (52 : Nat) = (2 : Rat) ^ (ilog2 a) * (2 : Rat) ^ (-e) := h3.symm
       _ ≤ a * (2 : Rat) ^ (-e) := mul_le_mul_of_nonneg_right h1 (le_of_lt h2)
+  have hs53 : s < (2 : Rat) ^ (53 : Nat) := by
+    have h1 := lt_two_zpow_ilog2_succ a ha
+    have h2 : (0 : Rat) < (2 : Rat) ^ (-e) := zpow_pos (by norm_num) _
+    have h3 : (2 : Rat) ^ (ilog2 a + 1) * (2 : Rat) ^ (-e) = (2 : Rat) ^ (53 : Nat) := by
+      rw [← zpow_add₀ (by norm_num), ← zpow_natCast]
+      congr 1; simp only [e]; push_cast; ring
+    calc s = a * (2 : Rat) ^ (-e) := rfl
+      _ < (2 : Rat) ^ (ilog2 a + 1) * (2 : Rat) ^ (-e) := mul_lt_mul_of_pos_right h1 h2
+      _ = (2 : Rat) ^ (53 : Nat) := h3
   have hs0 : (0 : Rat) ≤ s := le_trans (by norm_num : (0 : Rat) ≤ (2 : Rat) ^ (52 : Nat)) hs
   have hfl0 : 0 ≤ s.floor := Rat.le_floor_iff.2 (by exact_mod_cast hs0)
   have hnI : (n : Int) = s.floor := Int.toNat_of_nonneg hfl0
@@ -97,7 +152,7 @@ theorem rndPos_spec (a : Rat) (ha : 0 < a) :
   have hn'0 : up = false → n' = n := by intro h; simp only [n', h, Bool.false_eq_true, if_false]
   have hsdef : s = a * (2 : Rat) ^ (-e) := rfl
   have hfdef : frac = s - (n : Rat) := rfl
-  refine ⟨n', e, hval, hs, ?_, ?_, ?_, ?_⟩ <;> rw [← hsdef]
+  refine ⟨n', e, hval, hs, ?_, ?_, ?_, ?_, hs53⟩ <;> rw [← hsdef]
   all_goals clear hval
   all_goals clear_value n' up frac n s
   · cases hu : up with
@@ -150,7 +205,8 @@ theorem rnd_pos_spec (x : Rat) (hx : 0 < x) :
       (2 : Rat) ^ (52 : Nat) ≤ x * (2 : Rat) ^ (-e) ∧
       (n' : Rat) ≤ x * (2 : Rat) ^ (-e) + 1 / 2 ∧ x * (2 : Rat) ^ (-e) - 1 / 2 ≤ (n' : Rat) ∧
       (∀ k : Int, x * (2 : Rat) ^ (-e) ≤ (k : Rat) → (n' : Int) ≤ k) ∧
-      (∀ k : Int, (k : Rat) ≤ x * (2 : Rat) ^ (-e) → k ≤ (n' : Int)) := by
+      (∀ k : Int, (k : Rat) ≤ x * (2 : Rat) ^ (-e) → k ≤ (n' : Int)) ∧
+      x * (2 : Rat) ^ (-e) < (2 : Rat) ^ (53 : Nat) := by
   obtain ⟨n', e, h1, h2⟩ := rndPos_spec x hx
   exact ⟨n', e, by rw [rnd_of_pos x hx, toRat_mk_false, h1], h2⟩
 
@@ -267,5 +323,139 @@ theorem toRat_rnd_le_dyadic (x : Rat) (K B : Nat) (hK : K < 2 ^ 53)
     rw [zpow_neg, zpow_natCast]; rfl
   rw [e] at h ⊢
   exact toRat_rnd_le_repr x K _ hK h
+
+/-- the lower counterpart: whatever lies above a double rounds to something above it -/
+theorem repr_le_toRat_rnd (x : Rat) (K : Nat) (E : Int) (hK : K < 2 ^ 53)
+    (h : (K : Rat) * (2 : Rat) ^ E ≤ x) : (K : Rat) * (2 : Rat) ^ E ≤ (rnd x).toRat := by
+  have hE : (0 : Rat) < (2 : Rat) ^ E := zpow_pos (by norm_num) _
+  have hy : (0 : Rat) ≤ (K : Rat) * (2 : Rat) ^ E := by positivity
+  rcases eq_or_lt_of_le (le_trans hy h) with hx | hx
+  · rw [← hx, rnd_zero, toRat_zero]; rw [← hx] at h; exact h
+  · obtain ⟨n', e, hv, hs, _, _, _, hfloor, _⟩ := rnd_pos_spec x hx
+    rw [hv]
+    have hP : (0 : Rat) < (2 : Rat) ^ e := zpow_pos (by norm_num) _
+    have hQ : (0 : Rat) < (2 : Rat) ^ (-e) := zpow_pos (by norm_num) _
+    rcases le_or_gt e E with hle | hlt
+    · have hsy : (K : Rat) * (2 : Rat) ^ E * (2 : Rat) ^ (-e) ≤ x * (2 : Rat) ^ (-e) :=
+        mul_le_mul_of_nonneg_right h (le_of_lt hQ)
+      have hEe : (2 : Rat) ^ E * (2 : Rat) ^ (-e) = (2 : Rat) ^ (E - e) := by
+        rw [← zpow_add₀ (by norm_num)]; congr 1
+      rw [mul_assoc, hEe] at hsy
+      obtain ⟨j, hj⟩ : ∃ j : Nat, E - e = (j : Int) := ⟨(E - e).toNat, by omega⟩
+      rw [hj, zpow_natCast] at hsy
+      have hk : (((K * 2 ^ j : Nat) : Int) : Rat) ≤ x * (2 : Rat) ^ (-e) := by
+        push_cast; exact hsy
+      have hn := hfloor _ hk
+      have hn' : (K : Rat) * (2 : Rat) ^ j ≤ (n' : Rat) := by
+        have : K * 2 ^ j ≤ n' := by exact_mod_cast hn
+        exact_mod_cast this
+      have : (2 : Rat) ^ E = (2 : Rat) ^ j * (2 : Rat) ^ e := by
+        rw [← zpow_natCast, ← zpow_add₀ (by norm_num)]; congr 1; omega
+      rw [this, ← mul_assoc]
+      exact mul_le_mul_of_nonneg_right hn' (le_of_lt hP)
+    · -- K * 2^E < 2^53 * 2^E ≤ 2^52 * 2^e ≤ n' * 2^e
+      have hn2 : ((2 ^ 52 : Nat) : Int) ≤ (n' : Int) := hfloor _ (by push_cast; exact hs)
+      have hn2' : (2 : Rat) ^ (52 : Nat) ≤ (n' : Rat) := by
+        have : 2 ^ 52 ≤ n' := by exact_mod_cast hn2
+        exact_mod_cast this
+      have hK' : (K : Rat) ≤ (2 : Rat) ^ (53 : Nat) := by
+        have : K ≤ 2 ^ 53 := by omega
+        exact_mod_cast this
+      have hpow : (2 : Rat) ^ (53 : Nat) * (2 : Rat) ^ E ≤ (2 : Rat) ^ (52 : Nat) * (2 : Rat) ^ e := by
+        have h3 : (2 : Rat) ^ (53 : Nat) * (2 : Rat) ^ E = (2 : Rat) ^ (52 : Nat) * (2 : Rat) ^ (E + 1) := by
+          rw [zpow_add₀ (by norm_num)]; norm_num; ring
+        rw [h3]
+        exact mul_le_mul_of_nonneg_left (zpow_le_zpow_right₀ (by norm_num) (by omega)) (by norm_num)
+      calc (K : Rat) * (2 : Rat) ^ E ≤ (2 : Rat) ^ (53 : Nat) * (2 : Rat) ^ E :=
+            mul_le_mul_of_nonneg_right hK' (le_of_lt hE)
+        _ ≤ (2 : Rat) ^ (52 : Nat) * (2 : Rat) ^ e := hpow
+        _ ≤ (n' : Rat) * (2 : Rat) ^ e := mul_le_mul_of_nonneg_right hn2' (le_of_lt hP)
+
+/-- **`rnd` fixes every double**: `K * 2^E` with `K < 2^53` is rounded to itself -/
+theorem toRat_rnd_repr (K : Nat) (E : Int) (hK : K < 2 ^ 53) :
+    (rnd ((K : Rat) * (2 : Rat) ^ E)).toRat = (K : Rat) * (2 : Rat) ^ E :=
+  le_antisymm (toRat_rnd_le_repr _ K E hK (le_refl _)) (repr_le_toRat_rnd _ K E hK (le_refl _))
+
+/-! ## `rnd` is monotone -/
+
+theorem rnd_mono_pos (x y : Rat) (hx : 0 < x) (hxy : x ≤ y) : (rnd x).toRat ≤ (rnd y).toRat := by
+  rcases eq_or_lt_of_le hxy with rfl | hlt
+  · exact le_refl _
+  have hy : 0 < y := lt_of_lt_of_le hx hxy
+  obtain ⟨n1, e1, hv1, hs1, hup1, _, hceil1, _, hlt1⟩ := rnd_pos_spec x hx
+  obtain ⟨n2, e2, hv2, hs2, _, hlo2, _, hfloor2, hlt2⟩ := rnd_pos_spec y hy
+  rw [hv1, hv2]
+  have hP1 : (0 : Rat) < (2 : Rat) ^ e1 := zpow_pos (by norm_num) _
+  have hP2 : (0 : Rat) < (2 : Rat) ^ e2 := zpow_pos (by norm_num) _
+  have hQ1 : (0 : Rat) < (2 : Rat) ^ (-e1) := zpow_pos (by norm_num) _
+  have hQ2 : (0 : Rat) < (2 : Rat) ^ (-e2) := zpow_pos (by norm_num) _
+  have c52 : (2 : Rat) ^ (52 : Nat) = 4503599627370496 := by norm_num
+  have c53 : (2 : Rat) ^ (53 : Nat) = 9007199254740992 := by norm_num
+  -- x = s1 * 2^e1, y = s2 * 2^e2
+  have hx' : x * (2 : Rat) ^ (-e1) * (2 : Rat) ^ e1 = x := by
+    rw [mul_assoc, zpow_neg_mul_self, mul_one]
+  have hy' : y * (2 : Rat) ^ (-e2) * (2 : Rat) ^ e2 = y := by
+    rw [mul_assoc, zpow_neg_mul_self, mul_one]
+  rcases lt_trichotomy e1 e2 with hlt12 | heq | hgt
+  · -- different binades: n1 * 2^e1 ≤ 2^53 * 2^e1 ≤ 2^52 * 2^e2 ≤ n2 * 2^e2
+    have hn1 : (n1 : Int) ≤ ((2 ^ 53 : Nat) : Int) :=
+      hceil1 _ (by push_cast; exact le_of_lt hlt1)
+    have hn1' : (n1 : Rat) ≤ (2 : Rat) ^ (53 : Nat) := by
+      have : n1 ≤ 2 ^ 53 := by exact_mod_cast hn1
+      exact_mod_cast this
+    have hn2 : ((2 ^ 52 : Nat) : Int) ≤ (n2 : Int) :=
+      hfloor2 _ (by push_cast; exact hs2)
+    have hn2' : (2 : Rat) ^ (52 : Nat) ≤ (n2 : Rat) := by
+      have : 2 ^ 52 ≤ n2 := by exact_mod_cast hn2
+      exact_mod_cast this
+    have hpow : (2 : Rat) ^ (53 : Nat) * (2 : Rat) ^ e1 ≤ (2 : Rat) ^ (52 : Nat) * (2 : Rat) ^ e2 := by
+      have h1 : (2 : Rat) ^ (53 : Nat) * (2 : Rat) ^ e1 = (2 : Rat) ^ (52 : Nat) * (2 : Rat) ^ (e1 + 1) := by
+        rw [zpow_add₀ (by norm_num)]; norm_num; ring
+      rw [h1]
+      exact mul_le_mul_of_nonneg_left (zpow_le_zpow_right₀ (by norm_num) (by omega)) (by norm_num)
+    calc (n1 : Rat) * (2 : Rat) ^ e1 ≤ (2 : Rat) ^ (53 : Nat) * (2 : Rat) ^ e1 :=
+          mul_le_mul_of_nonneg_right hn1' (le_of_lt hP1)
+      _ ≤ (2 : Rat) ^ (52 : Nat) * (2 : Rat) ^ e2 := hpow
+      _ ≤ (n2 : Rat) * (2 : Rat) ^ e2 := mul_le_mul_of_nonneg_right hn2' (le_of_lt hP2)
+  · -- same binade: compare the integer mantissas
+    subst heq
+    have hs12 : x * (2 : Rat) ^ (-e1) < y * (2 : Rat) ^ (-e1) := mul_lt_mul_of_pos_right hlt hQ1
+    have hn : (n1 : Int) ≤ (n2 : Int) := by
+      by_contra hc
+      have hc' : (n2 : Int) + 1 ≤ (n1 : Int) := by omega
+      -- s1 > n2 (else the ceiling property gives n1 ≤ n2)
+      have h1 : ¬ (x * (2 : Rat) ^ (-e1) ≤ ((n2 : Int) : Rat)) := fun h => hc (hceil1 _ h)
+      have h2 : ((n2 : Rat) + 1) ≤ (n1 : Rat) := by exact_mod_cast hc'
+      push_cast at h1
+      linarith
+    have hn' : (n1 : Rat) ≤ (n2 : Rat) := by exact_mod_cast hn
+    exact mul_le_mul_of_nonneg_right hn' (le_of_lt hP1)
+  · -- e2 < e1 is impossible: x ≥ 2^52 * 2^e1 ≥ 2^53 * 2^e2 > y
+    exfalso
+    have h1 : (2 : Rat) ^ (52 : Nat) * (2 : Rat) ^ e1 ≤ x := by
+      have := mul_le_mul_of_nonneg_right hs1 (le_of_lt hP1)
+      rwa [hx'] at this
+    have h2 : y < (2 : Rat) ^ (53 : Nat) * (2 : Rat) ^ e2 := by
+      have := mul_lt_mul_of_pos_right hlt2 hP2
+      rwa [hy'] at this
+    have hpow : (2 : Rat) ^ (53 : Nat) * (2 : Rat) ^ e2 ≤ (2 : Rat) ^ (52 : Nat) * (2 : Rat) ^ e1 := by
+      have h3 : (2 : Rat) ^ (53 : Nat) * (2 : Rat) ^ e2 = (2 : Rat) ^ (52 : Nat) * (2 : Rat) ^ (e2 + 1) := by
+        rw [zpow_add₀ (by norm_num)]; norm_num; ring
+      rw [h3]
+      exact mul_le_mul_of_nonneg_left (zpow_le_zpow_right₀ (by norm_num) (by omega)) (by norm_num)
+    linarith
+
+/-- **rounding is monotone** -/
+theorem rnd_mono (x y : Rat) (hxy : x ≤ y) : (rnd x).toRat ≤ (rnd y).toRat := by
+  rcases lt_trichotomy x 0 with hx | hx | hx
+  · rcases lt_or_ge y 0 with hy | hy
+    · rw [toRat_rnd_neg x hx, toRat_rnd_neg y hy]
+      have := rnd_mono_pos (-y) (-x) (by linarith) (by linarith)
+      linarith
+    · exact le_trans (toRat_rnd_nonpos x (le_of_lt hx)) (toRat_rnd_nonneg y hy)
+  · subst hx
+    rw [rnd_zero, toRat_zero]
+    exact toRat_rnd_nonneg y hxy
+  · exact rnd_mono_pos x y hx hxy
 
 end FV.F
